@@ -24,6 +24,10 @@ CHECKS = {
   text="router::input_path_to_segments and its closures executed from MIR on a raw request path of N symbolic bytes (every length 0..8 quick / 0..10 thorough, every byte 0x01..0xFF) and compared path by path with a reference normaliser (split on '/', drop empty pieces, percent-decode each piece exactly once, refuse '.'/'..' after decoding and invalid UTF-8) whose branches are decided by the solver under the path condition; then lookup_route with the real normaliser on wildcard and variable routes followed by the MapValue accessors the Path extractor uses (as_value/as_seq): handlers receive exactly the reference's segments, never '', '.' or '..', and a segment error is a 400. Counterexamples replayed through lookup_route and a loop-back server.",
   note="Bounded by raw path length (stated in evidence). Trusted: models of str::split/filter/map/collect and of percent_encoding::percent_decode_str(..).decode_utf8() (props/strmodel.py), validated against the real crate on a fixed corpus and on every replayed model. Outside: what hyper/http::Uri accept as a request target. The equal-treatment-of-extra-slashes clause follows from equality with the reference (which ignores empty pieces) rather than from a separate relational query.",
   tech="symbolic execution of MIR over bounded symbolic byte strings + SMT; reference executed under the path condition; native replay", ref="DESIGN.md §5 C03"),
+ "C11": dict(
+  text="RequestContext::request_body_max_bytes, StreamingBody::into_stream (the try_stream! coroutine, executed as a state machine across polls), http_dump_body's coroutine, StreamingBody::into_bytes_mut and UntypedBody::from_request executed from MIR on frame scripts of 0..4 (quick) / 0..6 (thorough) frames, each a data frame of symbolic 64-bit length, a trailers frame or a transport error, with symbolic server default and per-endpoint override. z3 proves per path: effective limit = override else default; the emitted sequence is exactly the data frames in order until the running total would exceed the limit, then (after draining the rest) one 4xx error and nothing more; delivered bytes <= limit; a body within the limit is delivered intact; the buffered extractor succeeds iff the stream has no error. Wire-level witnesses (untyped, streaming, typed extractors; default/override; several chunkings) replayed against a loop-back server.",
+  note="Assumes the frame lengths of one body sum to < 2^63. Trusted: models of the http_body_util Frame future, async-stream yielder and futures try_fold (props/asyncmodel.py). Outside: HTTP framing / chunk decoding (hyper); byte contents (chunks tracked by identity); TypedBody's use of the same path is exercised on the wire only.",
+  tech="symbolic execution of MIR coroutines across polls + SMT (64-bit bit-vectors); reference stream evaluated under path conditions; native replay", ref="DESIGN.md §5 C11"),
 }
 NA_DEFAULT = "check under construction in this round (see DESIGN.md §5/§7); not yet claimed"
 NA = {}
